@@ -46,7 +46,8 @@ def _valid(kind):
         # indexed by TIME, carries DEPT as an ordinary channel (different frame array identity)
         from props import c04
         t1 = [c04.ch('TIME', 17, [1]), c04.ch('DEPT', 2, [1]), c04.ch('GR', 7, [1])]
-        lp = {'types': [{'name': 'FT1', 'channels': t1, 'n': 4}], 'layout': 'one', 'origin': 'full'}
+        lp = {'types': [{'name': 'FT1', 'channels': t1, 'n': 4}], 'layout': 'one', 'origin': 'full',
+              'extra_sets': [c11.parameter_set([b'COUN', b'NATI', b'STAT'])]}
         return c04.build(lp)[0]
     if kind == 'L':
         return c11.lis_source({'n': 6})[0]
@@ -57,7 +58,7 @@ def _valid(kind):
         with open(os.path.join(seams.REPO, 'example_data', 'LIS', 'data', 'DILLSON-1_WELL_LOGS_FILE-013.LIS'), 'rb') as f:
             return f.read()
     if kind == 'V1b':
-        return c11.rp66_source({'n': 3})[0]
+        return c11.rp66_source({'n': 3, 'params': ['STAT', 'APIN', 'LOC ']})[0]   # same PARAMETER set name as V1, other objects in another order
     if kind == 'Lb':
         return c11.lis_source({'n': 4})[0]
     if kind == 'Bb':
